@@ -50,6 +50,10 @@ SUPPORTS = {
     'C01': ['C04', 'C06', 'C07', 'C13', 'C18', 'C11'],
     'C05': ['C04', 'C06', 'C07', 'C13', 'C18'],
     'C10': ['C07', 'C11', 'C18'],
+    # C14: "if it propagates out of build the pre-build state is restored as in C02"
+    'C14': ['C02'],
+    # C06: "versions persisted with the cache", "previous committed build"
+    'C06': ['C16'],
 }
 
 
